@@ -27,6 +27,71 @@ impl Tier {
     }
 }
 
+/// `TV_VARIANT=sync` marks a child run of another build of the harness (tau-engine/sync).
+pub fn variant() -> Option<String> {
+    std::env::var("TV_VARIANT").ok().filter(|v| !v.is_empty())
+}
+
+/// Runs the same check in the harness built against `tau-engine/sync` (its own copy of
+/// `Object::find`, of the `Document`/`Object`/`Array`/`AsValue` traits and of the std adapters).
+/// The child's VIOLATION / KNOWN-FINDING lines are forwarded, its coverage is embedded in this
+/// run's evidence under `sync_build`. Returns the child's verdict (0 / 1) or 2 on machinery error.
+pub fn run_variant(rep: &mut Report, v: &str, exe: &str) -> i32 {
+    if variant().is_some() {
+        return 0;
+    }
+    let ev = format!("{}/harness/variant-evidence/{}.{}.json", VERIF_DIR, rep.id, v);
+    let _ = std::fs::remove_file(&ev);
+    let out = std::process::Command::new(exe)
+        .arg(&rep.id)
+        .arg(rep.tier.name())
+        .env("TV_VARIANT", v)
+        .output();
+    let o = match out {
+        Ok(o) => o,
+        Err(e) => {
+            eprintln!("machinery error: cannot run the {} build {}: {}", v, exe, e);
+            return 2;
+        }
+    };
+    let code = o.status.code().unwrap_or(2);
+    let txt = String::from_utf8_lossy(&o.stdout).to_string();
+    let mut viol = 0;
+    for l in txt.lines() {
+        if l.starts_with("VIOLATION ") {
+            println!("{}", l);
+            viol += 1;
+        } else if l.starts_with("KNOWN-FINDING:") {
+            println!("{} [{} build]", l, v);
+        }
+    }
+    if code >= 2 || (code == 1) != (viol > 0) {
+        eprintln!("machinery error: the {} build exited {} with {} violation lines\n{}", v, code, viol, String::from_utf8_lossy(&o.stderr));
+        return 2;
+    }
+    let j: J = match std::fs::read_to_string(&ev).ok().and_then(|t| serde_json::from_str(&t).ok()) {
+        Some(j) => j,
+        None => {
+            eprintln!("machinery error: the {} build wrote no evidence at {}", v, ev);
+            return 2;
+        }
+    };
+    if j.get("build_features").and_then(|b| b.get(v)).and_then(|b| b.as_bool()) != Some(true) {
+        eprintln!("machinery error: {} is not a {} build", exe, v);
+        return 2;
+    }
+    let mut m = Map::new();
+    for k in ["states", "transitions", "traces_validated_against_impl", "evaluations", "distinct_nontrivial", "exhaustive", "counters"] {
+        if let Some(x) = j.get("coverage").and_then(|c| c.get(k)) {
+            m.insert(k.to_string(), x.clone());
+        }
+    }
+    m.insert("violations".into(), json!(viol));
+    m.insert("wall_s".into(), j.get("wall_s").cloned().unwrap_or(json!(0)));
+    rep.extra.insert(format!("{}_build", v), J::Object(m));
+    code
+}
+
 pub fn seed() -> u64 {
     std::env::var("VERIF_SEED")
         .ok()
@@ -214,6 +279,9 @@ impl Report {
                 let _ = std::fs::create_dir_all(&dir);
                 let mut body = vs[0].replay.clone();
                 if let Some(m) = body.as_object_mut() {
+                    if let Some(v) = variant() {
+                        m.insert("build_variant".into(), json!(v));
+                    }
                     m.insert("property".into(), json!(self.id));
                     m.insert("signature".into(), json!(sig));
                     m.insert("witness".into(), json!(vs[0].witness));
@@ -225,9 +293,13 @@ impl Report {
                     eprintln!("machinery error: cannot write {}: {}", path, e);
                     return 2;
                 }
+                let sig_shown = match variant() {
+                    Some(v) => format!("[{} build] {}", v, sig),
+                    None => sig.clone(),
+                };
                 lines.push(format!(
                     "VIOLATION property={} replay={} signature={:?} cases={} witness={}",
-                    self.id, path, sig, cases, vs[0].witness
+                    self.id, path, sig_shown, cases, vs[0].witness
                 ));
             }
         }
@@ -268,10 +340,23 @@ impl Report {
             "assumptions": self.assumptions,
             "wall_s": wall,
             "violations": unknown,
+            "build_features": {"sync": cfg!(feature = "sy"), "ignore_case": cfg!(feature = "ic")},
         });
-        let dir = format!("{}/evidence", VERIF_DIR);
+        // a variant build (child of the main run) writes its evidence next to the binaries, never
+        // into /verif/evidence; the parent embeds it (see `run_variant`)
+        let (dir, path) = match variant() {
+            Some(v) => {
+                let dir = format!("{}/harness/variant-evidence", VERIF_DIR);
+                let path = format!("{}/{}.{}.json", dir, self.id, v);
+                (dir, path)
+            }
+            None => {
+                let dir = format!("{}/evidence", VERIF_DIR);
+                let path = format!("{}/{}.json", dir, self.id);
+                (dir, path)
+            }
+        };
         let _ = std::fs::create_dir_all(&dir);
-        let path = format!("{}/{}.json", dir, self.id);
         if let Err(e) = std::fs::write(&path, serde_json::to_string_pretty(&ev).unwrap()) {
             eprintln!("machinery error: cannot write {}: {}", path, e);
             return 2;
